@@ -368,6 +368,57 @@ pub fn record(args: &Args) {
     let mut produced = 0u64;
     let mut attempts = 0u64;
 
+    if mode == "cases-range" || mode == "cases-point" {
+        // expressions generated by TLC (Gen_Constant: every constant-shaped rule sequence of the bounded model):
+        // a window of nine days from a Sunday noon and an open-ended stream / next_change from a Tuesday
+        let cases = crate::util::read_ndjson(args.get_str("cases", ""));
+        let every = args.get_u64("every", 1) as usize;
+        let (part, parts) = (args.get_u64("part", 0) as usize, args.get_u64("parts", 1) as usize);
+        let ctx = Ctx::plain();
+        let sunday = daynum(NaiveDate::from_ymd_opt(2024, 6, 2).unwrap());
+        // a wrongly constant sequence of this alphabet differs within a week: no need to walk centuries
+        let short_lim = Limits { max_days: 60, max_cost: lim.max_cost, max_intervals: 12 };
+        let end = datetime(DAY_MAX + 1, 0);
+
+        for (idx, case) in cases.iter().enumerate() {
+            if idx % parts != part || (idx / parts + seed as usize) % every != 0 {
+                continue;
+            }
+            let src = case["src"].as_str().unwrap_or("");
+            let Ok(Ok(parsed)) = guarded(|| opening_hours_syntax::parse(src)) else { continue };
+            let Ok(Ok(oh)) = guarded(|| OpeningHours::parse(src)) else { continue };
+            let oh = oh.with_context(ctx.context());
+            let expr_json = astjson::expr(&parsed);
+            // constant in fact but not recognised by is_constant (`24/7 closed ; 18:00-06:00 closed`): next_change and
+            // open-ended streams walk day by day to year 9999 (seconds per call); only bounded windows for those
+            let flat = !parsed.is_constant()
+                && guarded(|| (0..9).all(|d| oh.schedule_at(date_of_daynum(sunday + d)).into_iter().count() == 1)).unwrap_or(false);
+            let evs = if mode == "cases-point" && flat {
+                vec![]
+            } else if mode == "cases-point" {
+                vec![
+                    point_event(id + 1, src, &oh, &ctx, datetime(sunday, 43_200), None, &short_lim),
+                    point_event(id + 2, src, &oh, &ctx, datetime(sunday + 2, 3_600), None, &short_lim),
+                ]
+            } else {
+                vec![
+                    range_event(id + 1, src, &oh, &ctx, datetime(sunday, 43_200), datetime(sunday + 9, 0), &lim),
+                    range_event(id + 2, src, &oh, &ctx, datetime(sunday + 2, 3_600), if flat { datetime(sunday + 40, 0) } else { end }, &short_lim),
+                ]
+            };
+            for ev in evs.into_iter().flatten() {
+                let mut ev = ev;
+                id += 1;
+                ev["id"] = json!(id);
+                ev["expr"] = expr_json.clone();
+                ev["model_constant"] = case["constant"].clone();
+                ev["is_constant"] = json!(parsed.is_constant());
+                println!("{ev}");
+            }
+        }
+        return;
+    }
+
     if mode == "sweep-range" || mode == "sweep-point" {
         // every expression of the hint-branch family x its critical dates (every `every`-th one, rotating with the
         // seed), with the long limits: open-ended streams / next_change whose changes may be many years apart
